@@ -8,7 +8,7 @@ OWNERS = {
     'C03': ['c03'],
     'C04': ['c04'],
     'C05': ['coherence', '*.incoherent', '*.refused_changed', '*.f6',
-            'accessor', 'reader', 'summary.sum',
+            'accessor', 'summary.nonzero_counts', 'read.nonzero_counts', 'reader', 'summary.sum',
             'summary.nnz',
             'summary.density', 'read.data', 'read.value', 'read.getslice',
             'read.iter', 'read.iter_data', 'read.pairwise', 'read.nonzero',
@@ -56,8 +56,8 @@ PROFILES = {
         'kinds': {'op': 10, 'read': 6, 'perturb': 3, 'spawn': 1.5, 'step': 3,
                   'probe': 1.5},
         'reads': _w(['data', 'value', 'iter', 'pairwise', 'nonzero', 'sum',
-                     'nnz', 'density', 'getslice', 'iter_data'], 1.0,
-                    ALL_READS, 0.15),
+                     'nnz', 'density', 'getslice', 'iter_data',
+                     'nonzero_counts'], 1.0, ALL_READS, 0.15),
         'probes': {'c05_interleave': 1.0},
     },
     'C06': {
